@@ -113,10 +113,6 @@ def obligations(tier):
     n = 0
     for entry in ("check", "request", "notify", "multi_getitem", "multi_iter"):
         for shape, leaves, codes in shape_list:
-            # the call sites other than check_for_errors get the full shape set
-            # only in the thorough tier; quick keeps one envelope
-            if entry != "check" and not thorough and shape["envelope"] == 1:
-                continue
             positions = [(1, 0)]
             if entry.startswith("multi"):
                 if shape["envelope"] == 1:
